@@ -169,11 +169,10 @@ func runStrat(name, ns, fs, streams string) (result string) {
 	if err1 != nil || err2 != nil || err3 != nil {
 		return "ERR parse"
 	}
-	ctor, ok := strategies[name]
-	if !ok {
-		return "ERR unknown-strategy"
+	s, errS := reportStrategy(name, n, f)
+	if s == nil {
+		return errS
 	}
-	s := ctor(n, f)
 	prod := newProducer(makeSnapshots(env), inputCap)
 	res, ok := drainAll([]<-chan strategy.Action{s.Compute(prod.c)}, caseTimeout)
 	if !ok {
